@@ -199,12 +199,12 @@ def run(ctx):
     full = lambda s: len(s['edges']) == s['n'] * (s['n'] - 1) // 2
     gfset = [s for s in f0 if full(s)] + [s for s in f1 if full(s) and s['imp'] == 'only']
     if ctx.quick:
-        gfset = [s for s in gfset if s['n'] == 3][::6]
+        gfset = [s for s in gfset if s['n'] == 3][::17]
     bad = [(s, r) for s, r in zip(gfset, ctx.pmap(gf_check, gfset, chunksize=2)) if r]
     ctx.require(not bad, f'generator emitted a project that gfortran does not confirm: {bad[:1]}')
 
     ctx.note(f'setup + gfortran conformance of {len(gfset)} projects took {ctx.elapsed():.0f}s')
-    deadline = ctx.elapsed() + (100 if ctx.quick else 780)
+    deadline = br.stage_deadline(ctx)
     total = collections.Counter()
     shapes = set()
     failures = []
